@@ -61,6 +61,11 @@ done
 for pf in "$VERIF"/benign_all/*.benign.patch; do
   add "$pf" benign ""
 done
+# the behaviour-preserving re-expressions written for the other properties' rules: silent here too
+for pf in "$VERIF"/mutants/*/*.benign.patch; do
+  case "$pf" in "$VERIF"/mutants/"$PROP"/*) continue ;; esac
+  add "$pf" benign ""
+done
 for meta in "$VERIF"/seeded/*/meta.json; do
   d="$(dirname "$meta")"
   if python3 - "$meta" "$PROP" <<'PY'
